@@ -37,7 +37,8 @@ func atClock(now int64, f func()) (panicMsg string) {
 	}
 	done := false
 	synctest.Test(curT, func(t *testing.T) {
-		d := time.Unix(now, 0).Sub(time.Now())
+		// the instant has a sub-second part (a pure function of now, 0-999 ms): real clocks are never on a whole second
+		d := time.Unix(now, (now%1000003*7919%1000)*int64(time.Millisecond)).Sub(time.Now())
 		if d < 0 {
 			panicMsg = "harness: clock target before the bubble epoch"
 			return
@@ -246,7 +247,10 @@ func genCLIWindow(t *rapid.T, l Layout, now int64) (from, until int64) {
 	case 6: // degenerate
 		f := now - rapid.Int64Range(0, a.Ret()).Draw(t, "back")
 		return f, f
-	case 7: // until in the future / from 0
+	case 7: // until in the future (also after 2038) / from 0
+		if rapid.IntRange(0, 2).Draw(t, "farFuture") == 0 {
+			return 0, rapid.Int64Range(1<<31-2, 1<<32-1).Draw(t, "farUntil")
+		}
 		return 0, now + rapid.Int64Range(1, 100).Draw(t, "fut")
 	case 8: // from given, until default
 		return now - rapid.Int64Range(1, a.Ret()+a.Step).Draw(t, "back"), 0
